@@ -619,6 +619,18 @@ pub fn run(ctx: &Ctx) -> i32 {
                 "sequences_ending_in_an_effective_merge": o.merges_with_effect, "sequences_with_positive_low_sketch": o.low_positive}));
         }
     }
+    {
+        let p = SetSketchParams::new(1.2, 4, 20., 400);
+        let mut x = new_ss::<u16>(p);
+        let mut y = new_ss::<u16>(p);
+        x.sketch(&1u64).unwrap();
+        for v in 100u64..112 {
+            y.sketch(&v).unwrap();
+        }
+        let before = sig_of(&x);
+        x.merge(&y).unwrap();
+        ctx.sample(json!({"merge_sequence": ["X.sketch(1)", "Y.sketch(burst 100..112)", "X.merge(Y)"], "X_before": before, "Y": sig_of(&y), "X_after": sig_of(&x), "X_low_sketch": x.get_low_sketch()}));
+    }
     // ---- laws
     for (pname, p) in &merge_params {
         let (n, bad) = merge_laws::<u16>(*p, pname);
